@@ -102,10 +102,11 @@ Fixpoint build_index_from (i : nat) (l : list value) (m : list (value * nat)) : 
   end.
 Definition build_index (l : list value) : list (value * nat) := build_index_from 0 l [].
 
-(** [FiniteDomain.__init__]: [self.values = list(values)] consumes the argument; the index is
-    then built from the *argument* again (F15): nothing is left of a one-shot iterator. *)
+(** [FiniteDomain.__init__]: [self.values = list(values)] consumes the argument (whatever kind
+    of iterable it is); the index is built from [self.values] (since /repo 7d2f845; before that
+    it was built from the argument again, F15 -- see [mk_finite_old] in Proofs/Domain_dom.v). *)
 Definition mk_finite (k : iterkind) (items : list value) : domain :=
-  DFinite items (build_index (match k with Reiterable => items | OneShot => [] end)).
+  DFinite items (build_index items).
 
 Definition dom_size (d : domain) : option nat :=
   match d with DFinite vs _ => Some (length vs) | DRange sz => sz end.
@@ -339,11 +340,10 @@ Definition add_domain (s : istate) (n : name) (d : domain) : istate * outcome :=
   if dmem Nat.eqb (st_doms s) n then (s, RErr ValueErr)
   else (mk_state (st_nls s) (st_els s) (dset Nat.eqb (st_doms s) n d) (st_facs s), RNone).
 
-(** [el in self.factors]: an EdgeLabel looked up among str keys.  A str never equals an
-    EdgeLabel (F14), so this is constantly false whatever the dict holds. *)
-Definition str_eq_elabel (k : name) (e : elabel) : bool := false.
-Definition elabel_in_keys (e : elabel) (m : list (name * factor)) : bool :=
-  existsb (fun kv => str_eq_elabel (fst kv) e) m.
+(** [el.name in self.factors] (since /repo 19d007a; before that [el in self.factors] looked an
+    EdgeLabel up among str keys and was constantly false, F14 -- see [add_factor_old] in
+    Proofs/Domain_bind.v) *)
+Definition label_bound (e : elabel) (m : list (name * factor)) : bool := dmem Nat.eqb m (el_name e).
 
 (** the loop [for nl, dom in zip(el.node_labels, fac.domains)] *)
 Fixpoint check_doms (doms : list (name * domain)) (nls : list name) (ds : list domain) : bool :=
@@ -360,7 +360,7 @@ Definition add_factor (s : istate) (e : elabel) (f : factor) : istate * outcome 
   if negb (el_terminal e) then (s, RErr ValueErr)
   else match add_edge_label s e with
        | (s1, RNone) =>
-         if elabel_in_keys e (st_facs s1) then (s1, RErr ValueErr)
+         if label_bound e (st_facs s1) then (s1, RErr ValueErr)
          else if negb (Nat.eqb (fac_arity f) (length (el_type e))) then (s1, RErr ValueErr)
          else if negb (check_doms (st_doms s1) (el_type e) (fac_doms f)) then (s1, RErr ValueErr)
          else (mk_state (st_nls s1) (st_els s1) (st_doms s1) (dset Nat.eqb (st_facs s1) (el_name e) f), RNone)
@@ -532,10 +532,10 @@ Fixpoint doms_match (doms : list (name * domain)) (nls : list name) (ds : list d
                           end
   | _, _ => false
   end.
-(** what add_factor guarantees as it stands ... *)
+(** terminal label, consistent with the label table, arity and every domain match ... *)
 Definition bind_spec_guarded (s : istate) (e : elabel) (f : factor) : bool :=
   el_terminal e && label_consistent s e && doms_match (st_doms s) (el_type e) (fac_doms f).
-(** ... and what C20 asks for: additionally the label must not be bound yet *)
+(** ... and the label must not be bound yet: what C20 asks for *)
 Definition bind_spec (s : istate) (e : elabel) (f : factor) : bool :=
   bind_spec_guarded s e f && negb (dmem Nat.eqb (st_facs s) (el_name e)).
 Definition domain_spec (s : istate) (n : name) : bool := negb (dmem Nat.eqb (st_doms s) n).
@@ -572,11 +572,9 @@ Definition build (c : dctor) : domain :=
 (** One domain case.  [probes]: values asked of contains / numberize (for a finite domain they
     include every item); [dargs]: the arguments given to denumberize (for a finite domain of
     size n: the integers -n-1 .. n); the rest are the implementation's answers.
-    Verdicts: 0 ok; 1 an oracle rejects; 2 ill-formed case (harness); 4 the oracle rejects only
-    because the index of a FiniteDomain built from a one-shot iterator is empty (F15), the
-    implementation agreeing with the faithful model; 5 the oracle rejects only because a
-    RangeDomain contains a non-integer (new finding), likewise; 10.. the answers differ from the
-    model's although no oracle rejects. *)
+    Verdicts: 0 ok; 1 an oracle rejects; 2 ill-formed case (harness); 5 the oracle rejects only
+    because a RangeDomain contains a non-integer (known finding), the implementation agreeing
+    with the faithful model; 10.. the answers differ from the model's although no oracle rejects. *)
 Definition dom_case :=
   (dctor * list value * list value *
    (domain * option nat * list (result bool) * list (result value) * list (result value)
@@ -613,15 +611,7 @@ Definition dom_check (x : dom_case) : nat :=
                 && bij_oracle items size tab (den_window n dargs iden)
                 && eq_oracle (DFinite items []) ieqs in
       if ok then (if agree then 0 else 10)
-      else match k with
-           | OneShot => if agree && negb (Nat.eqb n 0)
-                           && match isize with Some s => Nat.eqb s n | None => false end
-                           && list_eqb rvalue_eqb (den_window n dargs iden) (map Ok items)
-                           && eq_oracle (DFinite items []) ieqs
-                           && forallb (fun r => rvalue_eqb r (Err KeyErr)) inum
-                        then 4 else 1
-           | Reiterable => 1
-           end
+      else 1
   | CRange None => if eq_oracle d ieqs then (if agree then 0 else 10) else 1
   | CRange (Some n) =>
     (* for a RangeDomain denumberize is asked on the probes themselves *)
@@ -675,9 +665,8 @@ Definition fac_check (x : fac_case) : nat :=
 (** One history of API calls on a FactorGraph / FGG: the initial state as observed, and for every
     call the operation, the implementation's outcome and the state observed afterwards.
     Verdicts: 0 ok; 1 an oracle rejects (the call succeeded although the property forbids it, or
-    failed although it allows it, or shape() is not the tuple of sizes); 3 the oracle rejects only
-    because a factor was bound to an already bound label (F14), the implementation agreeing with
-    the faithful model; 10.. outcome or state differ from the model's. *)
+    failed although it allows it, or shape() is not the tuple of sizes); 10.. outcome or state
+    differ from the model's. *)
 Definition outcome_same (a b : outcome) : bool :=
   match a, b with
   | RNone, RNone => true
@@ -694,14 +683,13 @@ Definition state_same (a b : istate) : bool :=
   && list_eqb (fun x y => Nat.eqb (fst x) (fst y) && fac_same (snd x) (snd y)) (st_facs a) (st_facs b).
 Definition succeeded (r : outcome) : bool := match r with RErr _ => false | _ => true end.
 
-(** verdict of one call, given the state before it: 0, 1, 3 as above *)
+(** verdict of one call, given the state before it: 0 or 1 *)
 Definition step_oracle (s : istate) (o : op) (r : outcome) : nat :=
   match o with
   | OAddDomain n _ => if Bool.eqb (succeeded r) (domain_spec s n) then 0 else 1
   | ONewFiniteDomain n _ _ => if Bool.eqb (succeeded r) (domain_spec s n) then 0 else 1
   | OAddFactor e f =>
-    if Bool.eqb (succeeded r) (bind_spec s e f) then 0
-    else if succeeded r && bind_spec_guarded s e f && dmem Nat.eqb (st_facs s) (el_name e) then 3 else 1
+    if Bool.eqb (succeeded r) (bind_spec s e f) then 0 else 1
   | ONewFiniteFactor n w =>
     match el_find (st_els s) n with
     | None => if succeeded r then 1 else 0
@@ -711,8 +699,7 @@ Definition step_oracle (s : istate) (o : op) (r : outcome) : nat :=
       | Ok doms =>
         let spec := el_terminal e && ctor_oracle doms w true in
         let bound := dmem Nat.eqb (st_facs s) n in
-        if Bool.eqb (succeeded r) (spec && negb bound) then 0
-        else if succeeded r && spec && bound then 3 else 1
+        if Bool.eqb (succeeded r) (spec && negb bound) then 0 else 1
       end
     end
   | OShape a =>
@@ -732,7 +719,7 @@ Fixpoint bind_run (s : istate) (steps : list (op * outcome * istate)) (worst : n
     let '(ms, mr) := step s o in
     let v := step_oracle s o r in
     let c := if negb (outcome_same r mr) then 10 else if negb (state_same s' ms) then 11 else 0 in
-    (* priority: 1 > 10/11 > 3 > 0; after a disagreement the run stops *)
+    (* priority: 1 > 10/11 > 0; after a disagreement the run stops *)
     if Nat.eqb v 1 then 1
     else if negb (Nat.eqb c 0) then c
     else bind_run ms steps (Nat.max worst v)
